@@ -12,6 +12,9 @@ import CelloProofs.Lemmas.FmtRefine
 import CelloProofs.Lemmas.FmtPure
 import CelloProofs.Lemmas.FmtGrammar
 import CelloProofs.Lemmas.FmtNow
+import CelloProofs.Lemmas.FmtParse
+import CelloProofs.Lemmas.FmtCalls
+import CelloProofs.Lemmas.FmtShow
 
 namespace Cello.Fmt
 
@@ -46,20 +49,49 @@ theorem C14_dispatch_table :
     raises.  (Outcome and destination are equal; the concatenation of the segments is the format by definition of `render`.) -/
 theorem C14_segmentation (prim : Str → PVal → Str) (shw : Obj → Out → Out × Outcome)
     (segs : List Seg) (hwf : wfSegs cfgNow.conv segs = true) (args : List Obj) (o : Out) :
-    (printToWith cfgNow prim shw (render segs) args o).pair = refRun cfgNow prim shw args segs 0 o := by
-  have hlen : segs.length ≤ (render segs).length := by
-    clear o args
-    induction segs with
-    | nil => simp
-    | cons s r ih =>
-      obtain ⟨hs, hr, _⟩ := wfSegs_cons hwf
-      have := text_length_pos hs
-      have := ih hr
-      rw [render_cons]; simp; omega
-  obtain ⟨mk', h, _, _⟩ := loop_refines cfgNow prim shw args C14_scan_set.1 segs hwf (render segs) []
-    ((render segs).length + 1) 0 o ⟨0, 0⟩ (by simp) (by omega) (by simp) (by simp)
-  simp only [List.length_nil] at h
-  simp [printToWith, h, Result.pair]
+    (printToWith cfgNow prim shw (render segs) args o).pair = refRun cfgNow prim shw args segs 0 o :=
+  printToWith_pair cfgNow prim shw args C14_scan_set.1 segs hwf o
+
+/-- **The grammar is decidable and the segmentation unique**: the parser `parseFmt` (written with `takeWhile`/`dropWhile`,
+    independently of the scanner) returns `segs` for a format exactly when `segs` is a well-formed segmentation of it. -/
+theorem C14_grammar_decidable (fmt : Str) (segs : List Seg) :
+    parseFmt cfgNow.conv fmt = some segs ↔ (render segs = fmt ∧ wfSegs cfgNow.conv segs = true) := by
+  constructor
+  · intro h
+    obtain ⟨h1, h2, _⟩ := parse_sound cfgNow.conv _ _ _ h
+    exact ⟨h1, h2⟩
+  · rintro ⟨rfl, hwf⟩
+    exact parse_render cfgNow.conv C14_scan_set.1 segs hwf _ (by have := length_le_render segs hwf; omega)
+
+/-- **C14 for a format given as text**: if the (executable) parser accepts `fmt` with segments `segs`, then
+    `print_to_with` on `fmt` does exactly what the reference semantics does on `segs`, within the buffers. -/
+theorem C14_checked_format (prim : Str → PVal → Str) (shw : Obj → Out → Out × Outcome)
+    (fmt : Str) (segs : List Seg) (hp : parseFmt cfgNow.conv fmt = some segs) (args : List Obj) (o : Out) :
+    let r := printToWith cfgNow prim shw fmt args o
+    r.pair = refRun cfgNow prim shw args segs 0 o ∧ r.marks.rdMax ≤ fmt.length ∧ r.marks.wrMax ≤ fmt.length := by
+  obtain ⟨rfl, hwf⟩ := (C14_grammar_decidable fmt segs).1 hp
+  obtain ⟨mk', h, h1, h2⟩ := printToWith_refines cfgNow prim shw args C14_scan_set.1 segs hwf o
+  simp only [h, Result.pair]
+  exact ⟨trivial, h1, h2⟩
+
+/-- **The calls in closed form.** On a well-formed format whose specifications each find an argument of their class
+    (`expectCalls … = some cs`: Int for d i u o x X c, Float for f F e E g G a A, String for s, anything for p and $),
+    with a `show` that makes the calls `showCalls a` and does not raise, `print_to_with` makes exactly the calls `cs`:
+    the literal runs verbatim, `%%`, for the k-th specification the fragment `%` body conv with the C value of the k-th
+    argument, for `%$` the calls of the k-th argument's own show — in order; it completes, and the position returned is
+    the start position plus the length of the text libc wrote for these calls. -/
+theorem C14_calls (prim : Str → PVal → Str) (shw : Obj → Out → Out × Outcome) (showCalls : Obj → List Call)
+    (hs : ∀ a o, shw a o = (emitAll prim o (showCalls a), .ok))
+    (segs : List Seg) (hwf : wfSegs cfgNow.conv segs = true) (args : List Obj) (cs : List Call)
+    (hcs : expectCalls showCalls args segs 0 = some cs) (o : Out) :
+    let r := printToWith cfgNow prim shw (render segs) args o
+    r.pair = (emitAll prim o cs, .ok) ∧ r.out.calls = o.calls ++ cs ∧ r.out.pos = o.pos + (textOf prim cs).length := by
+  have h := C14_segmentation prim shw segs hwf args o
+  rw [refRun_typed prim shw C14_dispatch_table showCalls hs args segs 0 cs o hcs] at h
+  have h1 : (printToWith cfgNow prim shw (render segs) args o).out = emitAll prim o cs := congrArg Prod.fst h
+  refine ⟨h, ?_, ?_⟩
+  · simp only [h1, emitAll_calls]
+  · simp only [h1, emitAll_pos]
 
 /-- **The property's printf grammar is covered**: a specification `%` flags* digits* (`.` digits*)? lenmod conv
     (`specOK`, the grammar the check generates from) is a well-formed segment for the scan set of the source. -/
@@ -82,19 +114,8 @@ theorem C14_bounds (prim : Str → PVal → Str) (shw : Obj → Out → Out × O
     let r := printToWith cfgNow prim shw (render segs) args o
     r.marks.rdMax ≤ (render segs).length ∧ r.marks.wrMax ≤ (render segs).length ∧
       ((∀ a o, (shw a o).2 ≠ .oob) → r.oc ≠ .oob) := by
-  have hlen : segs.length ≤ (render segs).length := by
-    clear o args
-    induction segs with
-    | nil => simp
-    | cons s r ih =>
-      obtain ⟨hs, hr, _⟩ := wfSegs_cons hwf
-      have := text_length_pos hs
-      have := ih hr
-      rw [render_cons]; simp; omega
-  obtain ⟨mk', h, h1, h2⟩ := loop_refines cfgNow prim shw args C14_scan_set.1 segs hwf (render segs) []
-    ((render segs).length + 1) 0 o ⟨0, 0⟩ (by simp) (by omega) (by simp) (by simp)
-  simp only [List.length_nil] at h
-  simp only [printToWith, h]
+  obtain ⟨mk', h, h1, h2⟩ := printToWith_refines cfgNow prim shw args C14_scan_set.1 segs hwf o
+  simp only [h]
   exact ⟨h1, h2, fun hs => refRun_not_oob cfgNow prim shw hs args segs 0 o⟩
 
 /-! ## T1: position and sinks -/
@@ -153,6 +174,57 @@ theorem C14_too_few (prim : Str → PVal → Str) (shw : Obj → Out → Out × 
   · rw [h3]; simp; omega
   · rw [h3]; simp; omega
 
+/-! ## %$ and the built-in Show instances -/
+
+/-- the formats of Tuple_Show / Array_Show / List_Show read from the source are: literal opening (with one `%p` for Array and
+    List), literal separator, literal closing -/
+theorem C14_show_formats :
+    isLitFmt showNow.tupOpen = true ∧ isLitFmt showNow.tupSep = true ∧ isLitFmt showNow.tupClose = true ∧
+    parseFmt cfgNow.conv showNow.arrOpen = some [.lit "<'Array' At 0x".toList, .spec [] 'p', .lit " [".toList] ∧
+    isLitFmt showNow.arrSep = true ∧ isLitFmt showNow.arrClose = true ∧
+    parseFmt cfgNow.conv showNow.lstOpen = some [.lit "<'List' At 0x".toList, .spec [] 'p', .lit " [".toList] ∧
+    isLitFmt showNow.lstSep = true ∧ isLitFmt showNow.lstClose = true := by
+  decide
+
+/-- **`%$` is show**: `print_to(out, pos, "%$", a)` does exactly what `show_to(a, out, pos)` does, for any `show`. -/
+theorem C14_show_print (prim : Str → PVal → Str) (shw : Obj → Out → Out × Outcome) (a : Obj) (o : Out) :
+    (printToWith cfgNow prim shw ['%', '$'] [a] o).pair = shw a o :=
+  print_show cfgNow prim shw C14_scan_set.1 (C14_scan_set.2.1 '$' (by decide)) C14_dispatch_table.2.2.2.2.2 a o
+
+/-- **A container shows its elements' own show text, each once, in iteration order** (`showItemsSpec`: the first item's
+    show, then for each further item the separator and that item's show; stopping at the first that raises), between
+    the opening text (with the container's address for Array and List) and the closing text — Tuple, Array and List. -/
+theorem C14_show_containers (prim : Str → PVal → Str) (d : Nat) (items : List Obj) (o : Out) :
+    let elem := fun x o => showD cfgNow prim showNow d x o
+    let lit := fun (s : Str) (o : Out) => (o.formatTo prim s .none, Outcome.ok)
+    let addr := fun (pre post : Str) (o : Out) =>
+      (((o.formatTo prim pre .none).formatTo prim ['%', 'p'] .ptr).formatTo prim post .none, Outcome.ok)
+    showD cfgNow prim showNow (d + 1) (.tuple items) o =
+      andThen (lit showNow.tupOpen) (andThen (showItemsSpec prim elem showNow.tupSep items) (lit showNow.tupClose)) o ∧
+    showD cfgNow prim showNow (d + 1) (.array items) o =
+      andThen (addr "<'Array' At 0x".toList " [".toList)
+        (andThen (showItemsSpec prim elem showNow.arrSep items) (lit showNow.arrClose)) o ∧
+    showD cfgNow prim showNow (d + 1) (.list items) o =
+      andThen (addr "<'List' At 0x".toList " [".toList)
+        (andThen (showItemsSpec prim elem showNow.lstSep items) (lit showNow.lstClose)) o := by
+  have hp := C14_scan_set.1
+  have hd := C14_scan_set.2.1 '$' (by decide)
+  have hf := C14_dispatch_table.2.2.2.2.2
+  have hfp := C14_dispatch_table.2.2.2.2.1
+  obtain ⟨t1, t2, t3, a1, a2, a3, l1, l2, l3⟩ := C14_show_formats
+  exact ⟨showD_tuple cfgNow prim showNow hp hd hf t1 t2 t3 d items o,
+    showD_array cfgNow prim showNow hp hd hf hfp _ _ a1 a2 a3 d items o,
+    showD_list cfgNow prim showNow hp hd hf hfp _ _ l1 l2 l3 d items o⟩
+
+/-- **C14_too_few for arguments of the right class**: on a well-formed format where every specification that has an
+    argument has one of its class (`Typed`: Int for d i u o x X c, Float for f F e E g G a A, String for s; anything for
+    p and $) and `show` does not raise, FormatError is raised exactly when there are fewer arguments than specifications. -/
+theorem C14_too_few_typed (prim : Str → PVal → Str) (shw : Obj → Out → Out × Outcome) (hs : ∀ a o, (shw a o).2 = .ok)
+    (segs : List Seg) (hwf : wfSegs cfgNow.conv segs = true) (args : List Obj) (o : Out) (ht : Typed args segs 0) :
+    let r := printToWith cfgNow prim shw (render segs) args o
+    (r.oc = .raised .FormatError ↔ args.length < nspecs segs) ∧ (r.oc = .ok ↔ nspecs segs ≤ args.length) :=
+  C14_too_few prim shw segs hwf args o (allOk_of_typed prim shw C14_dispatch_table hs args segs 0 ht)
+
 /-! ## known finding F29, malformed tails, non-vacuity -/
 
 /-- **F29 (known finding).** The statement "when FormatError is raised the destination is unchanged" is false for the
@@ -179,6 +251,17 @@ example :
     r.oc = .ok ∧ r.out.pos = 23 ∧ r.marks = ⟨15, 5⟩ ∧ (render segs).length = 15 ∧
     r.out.sink = .str ("ox=-n%tuple(n, \"n\\\"\")hi".toList) ∧
     r.out.calls.map (·.frag) = ["x=", "%-5ld", "%%", "tuple(", "%li", ", ", "\"", "%c", "\\\"", "\"", ")", "%.2s"].map String.toList := by
+  decide
+
+/-- Non-vacuity of `C14_calls` / `C14_too_few_typed`: a typed format has expected calls; dropping its last argument
+    makes it `Typed` still, with fewer arguments than specifications. -/
+example :
+    let segs := [Seg.spec ['0', '8', '.', '3'] 'f', .lit [' '], .spec ['l', 'l'] 'x', .pct, .spec [] 's', .spec [] 'p']
+    let args := [Obj.flt 0x3ff8000000000000, .int 255, .str ['a'], .int 0]
+    wfSegs cfgNow.conv segs = true ∧
+    expectCalls (fun _ => []) args segs 0 = some [⟨"%08.3f".toList, .dbl 0x3ff8000000000000⟩, ⟨" ".toList, .none⟩,
+      ⟨"%llx".toList, .i64 255⟩, ⟨"%%".toList, .none⟩, ⟨"%s".toList, .cstr ['a']⟩, ⟨"%p".toList, .ptr⟩] ∧
+    nspecs segs = 4 ∧ expectCalls (fun _ => []) (args.take 3) segs 0 = none := by
   decide
 
 end Cello.Fmt
